@@ -1,3 +1,439 @@
 package main
 
-func extraFacts(repo string, fc *Facts) error { return nil }
+// Call-site inventories (C08, C09, C10, C13): every read/seek on the source, every write on the
+// sink with whether its error reaches the caller, every buffpool.Get with its deferred Put, every
+// package-level variable of the runtime and of the generated package (template).
+
+import (
+	"fmt"
+	"go/ast"
+	"go/parser"
+	"go/token"
+	"path/filepath"
+	"sort"
+	"strings"
+)
+
+type fileSrc struct {
+	rel  string
+	fset *token.FileSet
+	f    *ast.File
+}
+
+func loadGo(repo, rel string) (*fileSrc, error) {
+	fset, f, err := parseFile(filepath.Join(repo, rel))
+	if err != nil {
+		return nil, err
+	}
+	return &fileSrc{rel, fset, f}, nil
+}
+
+// the template is Go source inside a string with {{...}} actions; neutralise the actions so that
+// go/parser accepts it
+func loadTemplate(repo, rel, varName string) (*fileSrc, error) {
+	_, f, err := parseFile(filepath.Join(repo, rel))
+	if err != nil {
+		return nil, err
+	}
+	var body string
+	ast.Inspect(f, func(n ast.Node) bool {
+		vs, ok := n.(*ast.ValueSpec)
+		if !ok || len(vs.Names) != 1 || vs.Names[0].Name != varName || len(vs.Values) != 1 {
+			return true
+		}
+		if lit, ok := vs.Values[0].(*ast.BasicLit); ok && lit.Kind == token.STRING {
+			body = strings.Trim(lit.Value, "`")
+		}
+		return true
+	})
+	if body == "" {
+		return nil, fmt.Errorf("%s: template variable %s not found", rel, varName)
+	}
+	var b strings.Builder
+	for {
+		i := strings.Index(body, "{{")
+		if i < 0 {
+			b.WriteString(body)
+			break
+		}
+		j := strings.Index(body[i:], "}}")
+		if j < 0 {
+			return nil, fmt.Errorf("%s: unbalanced template action", rel)
+		}
+		b.WriteString(body[:i])
+		act := body[i : i+j+2]
+		// keep identifiers valid: {{.X}} -> TPL ; line-level actions (range/end/define/template) -> nothing
+		t := strings.TrimSpace(strings.Trim(act, "{}"))
+		if strings.HasPrefix(t, ".") || strings.HasPrefix(t, "removeStar") || strings.HasPrefix(t, "camelCase") {
+			b.WriteString("TPL")
+		}
+		body = body[i+j+2:]
+	}
+	fset := token.NewFileSet()
+	pf, err := parser.ParseFile(fset, rel, b.String(), parser.ParseComments)
+	if err != nil {
+		return nil, fmt.Errorf("%s: template body does not parse after neutralising actions: %v", rel, err)
+	}
+	return &fileSrc{rel + "#" + varName, fset, pf}, nil
+}
+
+func exprStr(fs *fileSrc, e ast.Node) string { return src(fs.fset, e) }
+
+// enclosing statement classification for a call whose error result matters
+func errHandling(fs *fileSrc, fn *ast.FuncDecl, call *ast.CallExpr) string {
+	kind := "dropped"
+	var stack []ast.Node
+	ast.Inspect(fn, func(n ast.Node) bool {
+		if n == nil {
+			stack = stack[:len(stack)-1]
+			return true
+		}
+		stack = append(stack, n)
+		if n != ast.Node(call) {
+			return true
+		}
+		// look at the parents
+		for i := len(stack) - 2; i >= 0; i-- {
+			switch p := stack[i].(type) {
+			case *ast.ReturnStmt:
+				kind = "returned"
+				return false
+			case *ast.AssignStmt:
+				// err must be bound to a named variable (not _)
+				last := p.Lhs[len(p.Lhs)-1]
+				lname := exprStr(fs, last)
+				if lname == "_" {
+					kind = "dropped"
+					return false
+				}
+				// the bound error must be checked or returned afterwards in the same function
+				if errUsedAfter(fs, fn, p, lname) {
+					kind = "checked"
+				} else {
+					kind = "dropped"
+				}
+				return false
+			case *ast.ExprStmt:
+				kind = "dropped"
+				return false
+			case *ast.IfStmt:
+				// `if err := call; err != nil { return ... }` is reached through its Init AssignStmt
+				continue
+			}
+		}
+		return false
+	})
+	return kind
+}
+
+// errUsedAfter: after assignment `as` to variable name, is there `if name != nil {return ...}` or
+// `return name` (possibly as the init-statement's own if)?
+func errUsedAfter(fs *fileSrc, fn *ast.FuncDecl, as *ast.AssignStmt, name string) bool {
+	found := false
+	after := false
+	ast.Inspect(fn, func(n ast.Node) bool {
+		if n == ast.Node(as) {
+			after = true
+			return true
+		}
+		if !after || found {
+			return true
+		}
+		switch x := n.(type) {
+		case *ast.ReturnStmt:
+			for _, r := range x.Results {
+				if exprStr(fs, r) == name {
+					found = true
+				}
+			}
+		case *ast.BinaryExpr:
+			if exprStr(fs, x.X) == name && x.Op == token.NEQ {
+				found = true
+			}
+		}
+		return true
+	})
+	// the if-with-init form: the assignment is the Init of an IfStmt whose Cond tests it
+	ast.Inspect(fn, func(n ast.Node) bool {
+		if is, ok := n.(*ast.IfStmt); ok && is.Init == ast.Stmt(as) {
+			if be, ok := is.Cond.(*ast.BinaryExpr); ok {
+				if exprStr(fs, be.X) == name {
+					found = true
+				}
+			}
+		}
+		return true
+	})
+	return found
+}
+
+func isIdent(e ast.Expr, names ...string) bool {
+	s := ""
+	switch x := e.(type) {
+	case *ast.Ident:
+		s = x.Name
+	case *ast.SelectorExpr:
+		if id, ok := x.X.(*ast.Ident); ok {
+			s = id.Name + "." + x.Sel.Name
+		}
+	}
+	for _, n := range names {
+		if s == n {
+			return true
+		}
+	}
+	return false
+}
+
+func funcsOf(fs *fileSrc) []*ast.FuncDecl {
+	var out []*ast.FuncDecl
+	for _, d := range fs.f.Decls {
+		if fd, ok := d.(*ast.FuncDecl); ok && fd.Body != nil {
+			out = append(out, fd)
+		}
+	}
+	return out
+}
+
+func extraFacts(repo string, fc *Facts) error {
+	var files []*fileSrc
+	for _, rel := range []string{"parquet.go", "fields.go"} {
+		fs, err := loadGo(repo, rel)
+		if err != nil {
+			return err
+		}
+		files = append(files, fs)
+	}
+	tpl, err := loadTemplate(repo, "cmd/parquetgen/gen/template.go", "tpl")
+	if err != nil {
+		return err
+	}
+	files = append(files, tpl)
+	for _, t := range [][2]string{
+		{"cmd/parquetgen/gen/template_required.go", "requiredNumericTpl"}, {"cmd/parquetgen/gen/template_optional.go", "optionalNumericTpl"},
+		{"cmd/parquetgen/gen/template_string.go", "stringTpl"}, {"cmd/parquetgen/gen/template_string_optional.go", "stringOptionalTpl"},
+		{"cmd/parquetgen/gen/template_bool.go", "boolTpl"}, {"cmd/parquetgen/gen/template_bool_optional.go", "boolOptionalTpl"},
+	} {
+		// field templates start with {{define}}: wrap into a package so that they parse
+		fs, err := loadTemplateWrapped(repo, t[0], t[1])
+		if err != nil {
+			return err
+		}
+		files = append(files, fs)
+	}
+
+	var srcSites, sinkSites, poolSites, globals, sinkProp, srcProp []string
+	sinkCallees := map[string]bool{"DoWrite": true, "WritePageHeader": true, "Footer": true}
+	srcCallees := map[string]bool{"ReadFooter": true, "ReadMetaData": true, "readRowGroup": true, "DoRead": true, "PageHeader": true,
+		"pageData": true, "readLevels": true, "getMetaDataSize": true, "PageHeadersAtOffset": true}
+	for _, fs := range files {
+		for _, fn := range funcsOf(fs) {
+			fname := fn.Name.Name
+			if fn.Recv != nil && len(fn.Recv.List) == 1 {
+				fname = strings.TrimPrefix(exprStr(fs, fn.Recv.List[0].Type), "*") + "." + fname
+			}
+			gets, puts := 0, 0
+			ast.Inspect(fn, func(n ast.Node) bool {
+				switch x := n.(type) {
+				case *ast.DeferStmt:
+					if sel, ok := x.Call.Fun.(*ast.SelectorExpr); ok && isIdent(sel.X, "buffpool") && sel.Sel.Name == "Put" {
+						puts++
+					}
+				case *ast.CallExpr:
+					// ---- propagation of errors from callees that touch the sink / the source
+					callee := ""
+					var recvE ast.Expr
+					switch f := x.Fun.(type) {
+					case *ast.Ident:
+						callee = f.Name
+					case *ast.SelectorExpr:
+						callee = f.Sel.Name
+						recvE = f.X
+					}
+					if sinkCallees[callee] {
+						sinkProp = append(sinkProp, fmt.Sprintf("%s:%s:%s:%s", fs.rel, fname, callee, errHandling(fs, fn, x)))
+					}
+					if callee == "Write" && recvE != nil {
+						if _, isIdx := recvE.(*ast.IndexExpr); isIdx || isIdent(recvE, "f") {
+							if len(x.Args) == 2 {
+								sinkProp = append(sinkProp, fmt.Sprintf("%s:%s:Field.Write:%s", fs.rel, fname, errHandling(fs, fn, x)))
+							}
+						}
+					}
+					if srcCallees[callee] {
+						srcProp = append(srcProp, fmt.Sprintf("%s:%s:%s:%s", fs.rel, fname, callee, errHandling(fs, fn, x)))
+					}
+					if callee == "Read" && recvE != nil && (isIdent(recvE, "f", "m", "pg") ) && len(x.Args) == 2 {
+						srcProp = append(srcProp, fmt.Sprintf("%s:%s:%s.Read:%s", fs.rel, fname, exprStr(fs, recvE), errHandling(fs, fn, x)))
+					}
+					sel, ok := x.Fun.(*ast.SelectorExpr)
+					if !ok {
+						return true
+					}
+					recv, m := sel.X, sel.Sel.Name
+					// ---- pool
+					if isIdent(recv, "buffpool") && m == "Get" {
+						gets++
+					}
+					// ---- source
+					if isIdent(recv, "r", "rr0", "p.r") && (m == "Read" || m == "Seek") {
+						kind := "single"
+						if m == "Seek" {
+							kind = "seek"
+						}
+						srcSites = append(srcSites, fmt.Sprintf("%s:%s:%s:%s", fs.rel, fname, kind, errHandling(fs, fn, x)))
+					}
+					if isIdent(recv, "r.r") && m == "Read" {
+						srcSites = append(srcSites, fmt.Sprintf("%s:%s:forward:%s", fs.rel, fname, errHandling(fs, fn, x)))
+					}
+					if isIdent(recv, "io") && (m == "ReadFull" || m == "CopyN" || m == "ReadAll") {
+						arg := x.Args[0]
+						if m == "CopyN" {
+							arg = x.Args[1]
+						}
+						if isIdent(arg, "r", "rc", "p.r") {
+							srcSites = append(srcSites, fmt.Sprintf("%s:%s:full:%s", fs.rel, fname, errHandling(fs, fn, x)))
+						}
+					}
+					if isIdent(recv, "binary") && m == "Read" && isIdent(x.Args[0], "r", "rc", "p.r") {
+						srcSites = append(srcSites, fmt.Sprintf("%s:%s:full:%s", fs.rel, fname, errHandling(fs, fn, x)))
+					}
+					// ---- sink
+					if isIdent(recv, "w", "p.w") && m == "Write" {
+						sinkSites = append(sinkSites, fmt.Sprintf("%s:%s:%s", fs.rel, fname, errHandling(fs, fn, x)))
+					}
+					if isIdent(recv, "binary") && m == "Write" && isIdent(x.Args[0], "w", "p.w") {
+						sinkSites = append(sinkSites, fmt.Sprintf("%s:%s:%s", fs.rel, fname, errHandling(fs, fn, x)))
+					}
+				}
+				return true
+			})
+			if gets > 0 || puts > 0 {
+				esc := "contained"
+				ast.Inspect(fn, func(n ast.Node) bool {
+					if r, ok := n.(*ast.ReturnStmt); ok {
+						for _, e := range r.Results {
+							if isIdent(e, "buf", "buff", "compressed") {
+								esc = "escapes"
+							}
+						}
+					}
+					return true
+				})
+				poolSites = append(poolSites, fmt.Sprintf("%s:%s:get=%d:deferput=%d:%s", fs.rel, fname, gets, puts, esc))
+			}
+		}
+		for _, d := range fs.f.Decls {
+			gd, ok := d.(*ast.GenDecl)
+			if !ok || gd.Tok != token.VAR {
+				continue
+			}
+			for _, s := range gd.Specs {
+				for _, n := range s.(*ast.ValueSpec).Names {
+					globals = append(globals, fs.rel+":"+n.Name)
+				}
+			}
+		}
+	}
+	sort.Strings(srcSites)
+	sort.Strings(sinkSites)
+	sort.Strings(poolSites)
+	sort.Strings(globals)
+	fc.Lists["sourceSites"] = srcSites
+	fc.Lists["sinkSites"] = sinkSites
+	fc.Lists["poolSites"] = poolSites
+	fc.Lists["globalVars"] = globals
+	sort.Strings(sinkProp)
+	sort.Strings(srcProp)
+	fc.Lists["sinkPropagation"] = sinkProp
+	fc.Lists["sourcePropagation"] = srcProp
+
+	// structured form for the Lean lemmas
+	var raw strings.Builder
+	raw.WriteString("inductive Kind | single | full | seek | forward | call\nderiving DecidableEq, Repr\n\n")
+	raw.WriteString("inductive Handling | checked | returned | dropped\nderiving DecidableEq, Repr\n\n")
+	raw.WriteString("structure Site where\n  file : String\n  fn : String\n  kind : Kind\n  h : Handling\nderiving Repr\n\n")
+	emit := func(name string, items []string, kindIdx, hIdx int) {
+		fmt.Fprintf(&raw, "def %s : List Site := [", name)
+		for i, it := range items {
+			p := strings.Split(it, ":")
+			kind := "call"
+			if kindIdx >= 0 {
+				kind = p[kindIdx]
+			}
+			if i > 0 {
+				raw.WriteString(",")
+			}
+			fmt.Fprintf(&raw, "\n  { file := %q, fn := %q, kind := .%s, h := .%s }", p[0], p[1], kind, p[hIdx])
+		}
+		raw.WriteString("]\n\n")
+	}
+	emit("sourceSiteList", srcSites, 2, 3)
+	emit("sinkSiteList", sinkSites, -1, 2)
+	emit("sinkPropList", sinkProp, -1, 3)
+	emit("sourcePropList", srcProp, -1, 3)
+	raw.WriteString("structure PoolSite where\n  file : String\n  fn : String\n  gets : Nat\n  deferPuts : Nat\n  contained : Bool\nderiving Repr\n\n")
+	raw.WriteString("def poolSiteList : List PoolSite := [")
+	for i, it := range poolSites {
+		p := strings.Split(it, ":")
+		if i > 0 {
+			raw.WriteString(",")
+		}
+		fmt.Fprintf(&raw, "\n  { file := %q, fn := %q, gets := %s, deferPuts := %s, contained := %v }", p[0], p[1],
+			strings.TrimPrefix(p[2], "get="), strings.TrimPrefix(p[3], "deferput="), p[4] == "contained")
+	}
+	raw.WriteString("]\n")
+	fc.Raw = append(fc.Raw, raw.String())
+	return nil
+}
+
+func loadTemplateWrapped(repo, rel, varName string) (*fileSrc, error) {
+	fs, err := loadTemplate2(repo, rel, varName)
+	return fs, err
+}
+
+func loadTemplate2(repo, rel, varName string) (*fileSrc, error) {
+	_, f, err := parseFile(filepath.Join(repo, rel))
+	if err != nil {
+		return nil, err
+	}
+	var body string
+	ast.Inspect(f, func(n ast.Node) bool {
+		vs, ok := n.(*ast.ValueSpec)
+		if !ok || len(vs.Names) != 1 || vs.Names[0].Name != varName || len(vs.Values) != 1 {
+			return true
+		}
+		if lit, ok := vs.Values[0].(*ast.BasicLit); ok && lit.Kind == token.STRING {
+			body = strings.Trim(lit.Value, "`")
+		}
+		return true
+	})
+	if body == "" {
+		return nil, fmt.Errorf("%s: template variable %s not found", rel, varName)
+	}
+	var b strings.Builder
+	b.WriteString("package tplpkg\n")
+	for {
+		i := strings.Index(body, "{{")
+		if i < 0 {
+			b.WriteString(body)
+			break
+		}
+		j := strings.Index(body[i:], "}}")
+		if j < 0 {
+			return nil, fmt.Errorf("%s: unbalanced template action", rel)
+		}
+		b.WriteString(body[:i])
+		t := strings.TrimSpace(strings.Trim(body[i:i+j+2], "{}"))
+		if !(strings.HasPrefix(t, "define") || strings.HasPrefix(t, "end") || strings.HasPrefix(t, "range") || strings.HasPrefix(t, "template") || strings.HasPrefix(t, "if") || strings.HasPrefix(t, "else")) {
+			b.WriteString("TPL")
+		}
+		body = body[i+j+2:]
+	}
+	fset := token.NewFileSet()
+	pf, err := parser.ParseFile(fset, rel, b.String(), parser.ParseComments)
+	if err != nil {
+		return nil, fmt.Errorf("%s#%s: template body does not parse after neutralising actions: %v", rel, varName, err)
+	}
+	return &fileSrc{rel + "#" + varName, fset, pf}, nil
+}
